@@ -13,7 +13,9 @@
 
   §3 is about the isomorphism comparison *as it stands in /repo* (refuted, finding D22′); §4 is about the comparison after
   the repair handoff/repairs/d22/patch.diff (`circuitIsIsomorphic2`: every edge carries the roles of its register at both
-  ends) — for it the full statement is proved (`iso_sound`).  The harness probes which of the two the implementation under
+  ends) — for it the full statement is proved (`iso_sound`), and also its converse (`iso_complete`: the repaired comparison
+  decides exactly "equal up to a renaming of the registers within each type", before and after normalisation, and is an
+  equivalence relation; `dedup_exact`).  The harness probes which of the two the implementation under
   test is and compares it with the corresponding model functions.
 -/
 import GraphiqModel.Proofs.Compare
@@ -26,6 +28,7 @@ import GraphiqModel.Proofs.CompareRepairComplete
 import GraphiqModel.Proofs.CompareRepairSearch
 import GraphiqModel.Proofs.CompareRepairExact
 import GraphiqModel.Proofs.CompareRepairLin
+import GraphiqModel.Proofs.CompareRepairEqv
 namespace Graphiq.C15
 open Graphiq Graphiq.Export Graphiq.Compare
 
@@ -491,6 +494,25 @@ theorem dedup_exact (l : List Circuit) (hl : ∀ c ∈ l, WellFormed c) :
     (∀ x ∈ l, x ∈ removeRedundant2 l ∨ ∃ k ∈ removeRedundant2 l, ∃ π, RenamedBy π (flatC k) (flatC x)) ∧
     (removeRedundant2 l).Pairwise (fun a b => ¬ ∃ π, RenamedBy π (flatC a) (flatC b)) :=
   ⟨(dedup_sound l hl).1, (dedup_sound l hl).2, removeRedundant2_minimal l (fun c hc => wellFormed_opOK c (hl c hc))⟩
+
+/-- **the repaired comparison is an equivalence relation on well-formed circuits** — the model function itself, as
+    `compare(method="isomorphism")` calls it and as the filters call it after normalisation: reflexive, symmetric (the
+    inverse of a map that passes the check passes it, and the search is complete), transitive (by the exact
+    characterisation, renamings compose).  So "exactly one kept circuit per class" in `dedup_exact` is about classes. -/
+theorem repaired_comparison_is_an_equivalence :
+    (∀ c, WellFormed c → circuitIsIsomorphic2 c c = .ok true ∧ isoNormalised2 c c = .ok true) ∧
+    (∀ c1 c2, WellFormed c1 → WellFormed c2 →
+      (circuitIsIsomorphic2 c1 c2 = .ok true → circuitIsIsomorphic2 c2 c1 = .ok true) ∧
+      (isoNormalised2 c1 c2 = .ok true → isoNormalised2 c2 c1 = .ok true)) ∧
+    (∀ c1 c2 c3, WellFormed c1 → WellFormed c2 → WellFormed c3 →
+      (circuitIsIsomorphic2 c1 c2 = .ok true → circuitIsIsomorphic2 c2 c3 = .ok true → circuitIsIsomorphic2 c1 c3 = .ok true) ∧
+      (isoNormalised2 c1 c2 = .ok true → isoNormalised2 c2 c3 = .ok true → isoNormalised2 c1 c3 = .ok true)) :=
+  ⟨fun c h => comparison_is_reflexive c h,
+   fun c1 c2 h1 h2 => ⟨circuitIsIsomorphic2_symm c1 c2 (wellFormed_opOK c1 h1) (wellFormed_opOK c2 h2),
+     isoNormalised2_symm c1 c2 (wellFormed_opOK c1 h1) (wellFormed_opOK c2 h2)⟩,
+   fun c1 c2 c3 h1 h2 h3 =>
+    ⟨circuitIsIsomorphic2_trans c1 c2 c3 (wellFormed_opOK c1 h1) (wellFormed_opOK c2 h2) (wellFormed_opOK c3 h3),
+     isoNormalised2_trans c1 c2 c3 (wellFormed_opOK c1 h1) (wellFormed_opOK c2 h2) (wellFormed_opOK c3 h3)⟩⟩
 
 /-! ## Non-vacuity -/
 
